@@ -763,6 +763,23 @@ pub(crate) fn add_sequence_rpush<W, R, T>(
     )
 }
 
+/// the elements after the first `n`: the skipped elements are not observed, but a violation raised while producing one
+/// of them is not an element and still reaches the consumer
+fn skip_elements<X, V>(
+    elements: impl Iterator<Item = Result<X, V>>,
+    n: usize,
+) -> impl Iterator<Item = Result<X, V>> {
+    let mut to_skip = n;
+    elements.skip_while(move |item| {
+        if to_skip > 0 && item.is_ok() {
+            to_skip -= 1;
+            true
+        } else {
+            false
+        }
+    })
+}
+
 pub(crate) fn add_sequence_insert<W, R, T>(
     scope: &mut RootCompilationScope<W, R, T>,
 ) -> Result<(), CompilationError> {
@@ -786,7 +803,7 @@ pub(crate) fn add_sequence_insert<W, R, T>(
                 .take(idx)
                 .collect::<Result<Result<Vec<_>, _>, _>>()?);
             ret.push(a2);
-            xraise!(ret.try_extend(seq0.iter(ns, rt.clone()).skip(idx))?);
+            xraise!(ret.try_extend(skip_elements(seq0.iter(ns, rt.clone()), idx))?);
             Ok(manage_native!(XSequence::array(ret), rt))
         }),
     )
@@ -817,7 +834,7 @@ pub(crate) fn add_sequence_pop<W, R, T>(
                 .iter(ns, rt.clone())
                 .take(idx)
                 .collect::<Result<Result<Vec<_>, _>, _>>()?);
-            xraise!(ret.try_extend(seq0.iter(ns, rt.clone()).skip(idx + 1))?);
+            xraise!(ret.try_extend(skip_elements(seq0.iter(ns, rt.clone()), idx + 1))?);
             Ok(manage_native!(XSequence::array(ret), rt))
         }),
     )
@@ -846,7 +863,7 @@ pub(crate) fn add_sequence_set<W, R, T>(
                 .take(idx)
                 .collect::<Result<Result<Vec<_>, _>, _>>()?);
             ret.push(a2);
-            xraise!(ret.try_extend(seq0.iter(ns, rt.clone()).skip(idx + 1),)?);
+            xraise!(ret.try_extend(skip_elements(seq0.iter(ns, rt.clone()), idx + 1))?);
             Ok(manage_native!(XSequence::array(ret), rt))
         }),
     )
@@ -883,9 +900,9 @@ pub(crate) fn add_sequence_swap<W, R, T>(
                 .take(idx1)
                 .collect::<Result<Result<Vec<_>, _>, _>>()?);
             ret.push(xraise!(seq0.get(idx2, ns, rt.clone())?));
-            xraise!(ret.try_extend(seq0.iter(ns, rt.clone()).take(idx2).skip(idx1 + 1))?);
+            xraise!(ret.try_extend(skip_elements(seq0.iter(ns, rt.clone()).take(idx2), idx1 + 1))?);
             ret.push(xraise!(seq0.get(idx1, ns, rt.clone())?));
-            xraise!(ret.try_extend(seq0.iter(ns, rt.clone()).skip(idx2 + 1))?);
+            xraise!(ret.try_extend(skip_elements(seq0.iter(ns, rt.clone()), idx2 + 1))?);
             Ok(manage_native!(XSequence::array(ret), rt))
         }),
     )
